@@ -297,7 +297,7 @@ pub fn drive_histories(t: &Tier, sink: &mut Sink, profile: Profile, cf: &'static
 /// history-made object and judged against the specification (cf "fun"), or its hash stream is recorded
 /// (cf "hash").  A change whose effect stays invisible until a *different* operation reads the storage
 /// (two cooperating sites) is seen here by the check of the property that owns the reading operation.
-pub fn drive_focus_histories(t: &Tier, sink: &mut Sink, ops: &[&str], kinds: &[Kind], histories: usize, steps: usize, stats: &mut Stats) {
+pub fn drive_focus_histories(t: &Tier, sink: &mut Sink, ops: &[&str], rops: &[usize], kinds: &[Kind], histories: usize, steps: usize, stats: &mut Stats) {
     let mut rng = Rng::new(t.seed ^ 0xF0C5 ^ ((ops.len() as u64) << 12) ^ (ops[0].len() as u64));
     for h in 0..histories {
         let kind = kinds[h % kinds.len()];
@@ -325,22 +325,36 @@ pub fn drive_focus_histories(t: &Tier, sink: &mut Sink, ops: &[&str], kinds: &[K
                 nb = 1;
             }
             // ... then one to three of the property's own operations on the live object
-            let cur = x.bits();
-            let mut cands: Vec<Step> = battery(&mut rng, kind, &cur, t.dbg).into_iter().filter(|s| ops.contains(&s.op)).collect();
-            // ... with random arguments as well (the battery's are fixed)
-            for _ in 0..24 {
-                let s = gen_step(&mut rng, kind, &cur, Profile::All);
-                if ops.contains(&s.op) {
-                    cands.push(s);
-                }
-            }
-            if cands.is_empty() {
-                continue;
-            }
+            // (`rop` number i: the history-made subject as the right operand of operation i of the table in exec.rs / Bva.tla)
             let mut dead = false;
             for _ in 0..1 + rng.below(3) {
+                // candidates for the CURRENT bits (indices, lengths and capacities in their arguments depend on them)
+                let cur = x.bits();
+                let mut cands: Vec<Step> = battery(&mut rng, kind, &cur, t.dbg)
+                    .into_iter()
+                    .filter(|s| ops.contains(&s.op) || (s.op == "rop" && rops.contains(&(s.a.i.unwrap_or(0) % 12))))
+                    .collect();
+                // ... with random arguments as well (the battery's are fixed)
+                for _ in 0..24 {
+                    let s = gen_step(&mut rng, kind, &cur, Profile::All);
+                    if ops.contains(&s.op) {
+                        cands.push(s);
+                    }
+                }
+                if cands.is_empty() {
+                    break;
+                }
                 let st = rng.pick(&cands).clone();
                 let pre = observe(&x);
+                if st.op == "rop" {
+                    // the candidates were made for the length at the start of this round: the left operand
+                    // must (still) be able to hold its own bits and, for append / prepend, the result
+                    let (zk, extra, i) = (st.a.tk.unwrap(), st.a.n.unwrap_or(0) as usize, st.a.i.unwrap_or(0) % 12);
+                    let need = x.len() + extra + if i == 7 || i == 8 { x.len() } else { 0 };
+                    if !zk.admits(need) || (i == 11 && x.bits().iter().all(|b| *b == 0)) {
+                        continue;
+                    }
+                }
                 if st.op == "hash" || st.op == "hash_slice" {
                     let mut xc = x.clone();
                     let stream = match exec(&mut xc, &Y::None, st.op, "", &Args::default()) {
@@ -544,6 +558,9 @@ pub fn battery(rng: &mut Rng, kind: Kind, bits: &Bits, dbg: bool) -> Vec<Step> {
             for i in 0..12 {
                 if i == 11 && (n > 130 || bits.iter().all(|b| *b == 0)) {
                     continue; // div_rem: not by zero, not on long operands
+                }
+                if (i == 7 || i == 8) && !zk.admits(2 * n + extra) {
+                    continue; // append / prepend: the left operand must be able to hold the result
                 }
                 if !rng.chance(1, 2) && extra != 70 {
                     continue;
